@@ -1,4 +1,5 @@
 """C04 — results depend on the instant, never on the Date's scale label."""
+import ast
 import math
 import os
 
@@ -39,6 +40,128 @@ SCALES = ["UTC", "TAI", "TT", "GPS", "UT1", "TDB"]
 
 
 def extract(ctx):
+    """the configuration of the date model (scale graph, `_scale_*` methods, second EOP lookup, IERS tables: C03's
+    extractor) and the cascade of formats of the CCSDS `parse_date` with its call sites"""
+    from harness.props import C03
+    ch = list(C03.extract(ctx) or [])
+    ch += extract_ccsds_dates()
+    return ch
+
+
+# ---------------------------------------------------------------- extract: beyond/io/ccsds -> Generated/CcsdsDates.lean
+
+def _ccsds_dir():
+    return os.path.join(core.REPO, "beyond", "io", "ccsds")
+
+
+def _lean_str(s):
+    return '"' + s.replace("\\", "\\\\").replace('"', '\\"') + '"'
+
+
+def parse_date_branches(tree):
+    """the `Date.strptime(string, FMT, scale=scale)` calls of `parse_date` in the order the `try … except ValueError`
+    cascade tries them: [(format string, scale handed on?)].  RuntimeError when the function is not such a cascade."""
+    consts = {}
+    for st in tree.body:
+        if isinstance(st, ast.Assign) and len(st.targets) == 1 and isinstance(st.targets[0], ast.Name) and isinstance(st.value, ast.Constant) and isinstance(st.value.value, str):
+            consts[st.targets[0].id] = st.value.value
+    fn = next((f for f in tree.body if isinstance(f, ast.FunctionDef) and f.name == "parse_date"), None)
+    if fn is None:
+        raise RuntimeError("commons.py: no function parse_date")
+    params = [a.arg for a in fn.args.args]
+    if len(params) != 2:
+        raise RuntimeError("parse_date: expected the parameters (string, scale)")
+    p_str, p_scale = params
+
+    def branch(st):
+        if not isinstance(st, (ast.Assign, ast.Return)) or not isinstance(st.value, ast.Call):
+            raise RuntimeError(f"parse_date: line {st.lineno}: not a Date.strptime call")
+        c = st.value
+        if not (isinstance(c.func, ast.Attribute) and c.func.attr == "strptime" and isinstance(c.func.value, ast.Name) and c.func.value.id == "Date"):
+            raise RuntimeError(f"parse_date: line {st.lineno}: not a Date.strptime call")
+        if not (len(c.args) >= 2 and isinstance(c.args[0], ast.Name) and c.args[0].id == p_str):
+            raise RuntimeError(f"parse_date: line {st.lineno}: first argument is not the text")
+        f = c.args[1]
+        if isinstance(f, ast.Name) and f.id in consts:
+            fmt = consts[f.id]
+        elif isinstance(f, ast.Constant) and isinstance(f.value, str):
+            fmt = f.value
+        else:
+            raise RuntimeError(f"parse_date: line {st.lineno}: format is not a module constant")
+        cands = list(c.args[2:3]) + [k.value for k in c.keywords if k.arg == "scale"]
+        if any(k.arg is None for k in c.keywords) or len(cands) > 1:
+            raise RuntimeError(f"parse_date: line {st.lineno}: scale argument not understood")
+        if cands and not (isinstance(cands[0], ast.Name) and cands[0].id == p_scale):
+            raise RuntimeError(f"parse_date: line {st.lineno}: the scale handed on is not the parameter")
+        return fmt, bool(cands)
+
+    def walk(stmts):
+        stmts = [s_ for s_ in stmts if not (isinstance(s_, ast.Expr) and isinstance(s_.value, ast.Constant))]
+        if not stmts:
+            raise RuntimeError("parse_date: empty block")
+        head, rest = stmts[0], stmts[1:]
+        for r in rest:
+            if not (isinstance(r, ast.Return) and isinstance(r.value, ast.Name)):
+                raise RuntimeError(f"parse_date: line {r.lineno}: statement not understood")
+        if isinstance(head, ast.Try):
+            if head.orelse or head.finalbody or len(head.handlers) != 1 or len(head.body) != 1:
+                raise RuntimeError(f"parse_date: line {head.lineno}: try block not understood")
+            h = head.handlers[0]
+            if not (isinstance(h.type, ast.Name) and h.type.id == "ValueError"):
+                raise RuntimeError(f"parse_date: line {h.lineno}: handler is not `except ValueError`")
+            return [branch(head.body[0])] + walk(h.body)
+        return [branch(head)]
+
+    return walk(fn.body)
+
+
+def parse_date_call_sites():
+    """every call of parse_date in beyond/io/ccsds: (file:line, the scale argument is the message's TIME_SYSTEM?) — the
+    argument is either an expression reading TIME_SYSTEM or a local name every assignment of which, in the enclosing
+    function, reads TIME_SYSTEM"""
+    sites = []
+    for fn in sorted(os.listdir(_ccsds_dir())):
+        if not fn.endswith(".py"):
+            continue
+        src = open(os.path.join(_ccsds_dir(), fn)).read()
+        tree = ast.parse(src)
+        for func in [n for n in ast.walk(tree) if isinstance(n, ast.FunctionDef)]:
+            assigns = {}
+            for n in ast.walk(func):
+                if isinstance(n, ast.Assign):
+                    for t in n.targets:
+                        if isinstance(t, ast.Name):
+                            assigns.setdefault(t.id, []).append(ast.get_source_segment(src, n.value) or "")
+            for c in ast.walk(func):
+                if isinstance(c, ast.Call) and isinstance(c.func, ast.Name) and c.func.id == "parse_date":
+                    ok = False
+                    if len(c.args) == 2 and not c.keywords:
+                        a = c.args[1]
+                        seg = ast.get_source_segment(src, a) or ""
+                        if "TIME_SYSTEM" in seg:
+                            ok = True
+                        elif isinstance(a, ast.Name) and assigns.get(a.id) and all("TIME_SYSTEM" in v for v in assigns[a.id]):
+                            ok = True
+                    sites.append((f"{fn}:{func.name}:{c.lineno}", ok))
+    return sorted(set(sites))
+
+
+def extract_ccsds_dates():
+    tree = ast.parse(open(os.path.join(_ccsds_dir(), "commons.py")).read())
+    brs = parse_date_branches(tree)
+    sites = parse_date_call_sites()
+    if not sites:
+        raise RuntimeError("no call of parse_date found in beyond/io/ccsds")
+    txt = ["/- GENERATED by harness/props/C04.py from beyond/io/ccsds/*.py (AST) — do not edit. -/",
+           "namespace BeyondVerif.Generated",
+           "/-- `parse_date`: the `Date.strptime(string, FMT, scale=scale)` calls in the order the `try … except ValueError` cascade",
+           "tries them: (format, is the scale parameter handed on?) -/",
+           "def parseDateBranches : List (String × Bool) := [" + ", ".join(f"({_lean_str(f)}, {'true' if s_ else 'false'})" for f, s_ in brs) + "]",
+           "/-- every call of `parse_date` in beyond/io/ccsds: (file:function:line, the scale argument is the message's TIME_SYSTEM?) -/",
+           "def parseDateCallSites : List (String × Bool) := [" + ",\n  ".join(f"({_lean_str(w)}, {'true' if o else 'false'})" for w, o in sites) + "]",
+           "end BeyondVerif.Generated", ""]
+    if core.write_if_changed(os.path.join(core.LEAN, "BeyondVerif", "Generated", "CcsdsDates.lean"), "\n".join(txt)):
+        return ["Generated/CcsdsDates.lean"]
     return []
 
 
